@@ -698,6 +698,10 @@ func (c *Client) Do(ctx context.Context, q Query) (err error) {
 				return ctx.Err()
 			case colInfo <- result:
 				return nil
+			default:
+				// Column info is already delivered and nobody will receive
+				// it again, so not blocking on redundant blocks forever.
+				return nil
 			}
 		}
 	}
